@@ -27,3 +27,28 @@ pub fn any_time() -> f64 {
     kani::assume(!t.is_nan());
     t
 }
+
+/// Model of `core::slice::memchr::memchr`: index of the first `x` in `text`.
+pub fn memchr_model(x: u8, text: &[u8]) -> Option<usize> {
+    let mut i = 0;
+    while i < text.len() {
+        if text[i] == x {
+            return Some(i);
+        }
+        i += 1;
+    }
+    None
+}
+
+/// Model of `core::slice::memchr::memrchr`: index of the last `x` in `text`.
+pub fn memrchr_model(x: u8, text: &[u8]) -> Option<usize> {
+    let mut i = text.len();
+    while i > 0 {
+        i -= 1;
+        if text[i] == x {
+            return Some(i);
+        }
+    }
+    None
+}
+
